@@ -165,3 +165,16 @@ func Harness_C01_m_generic_classify() {
 	}
 	verifCover("end")
 }
+
+func Harness_C01_m_literals() {
+	verifAssert(m_lit_plain() == "100% done\t\"q\"", "m_lit_plain: a plain literal with % and escapes")
+	verifAssert(m_lit_interp_nohole() == "100% done", "m_lit_interp_nohole: an interpolated literal without holes keeps its %")
+	verifAssert(m_lit_interp_braces() == "{x} 5%", "m_lit_interp_braces: escaped braces and %")
+	verifAssert(m_lit_raw_nohole() == "50% \"off\"", "m_lit_raw_nohole: a raw interpolated literal without holes")
+	n := verifInt("n")
+	verifAssume(0 <= n)
+	verifAssume(n < 100)
+	s := symBuf("s", 1)
+	verifAssert(m_lit_interp_hole(n, s) == itoaV(n)+"% of "+s+"%", "m_lit_interp_hole: holes next to %")
+	verifCover("end")
+}
